@@ -134,7 +134,30 @@ CHECKS = {
                 "(the clen < 8 guard itself is C03's); uninitialised reads and some nsw obligations are listed as not decided; -O3 objects only for alignment claims; gcc not covered.",
         "technique": "affine bounds analysis over LLVM IR with contracts (assume/guarantee) + points-to based access-shape rules + residue-affine coverage analysis",
     },
+    "C10": {
+        "text": "Construction conformance of TinyJAMBU-Hash with the documented MDPH construction: init, update and finalize are evaluated per buffer-position class (0..15), per length class, with "
+                "one generic iteration of the whole-block loop; all offsets are then constants and block contents are tracked byte for byte in the GF(2) term domain with the permutation "
+                "uninterpreted. Every compression equals K = R||M, L ^= d, L' = P(K,L)^L, R' = P(K,L^1)^L^1 with 20 rounds, d = 0 / 2 (final), padding 0x01 0*, digest = LE32(L')||LE32(R'); the blocks "
+                "compressed are exactly the consecutive 16-byte groups of the message; the 256-bit C permutation equals the NLFSR for every round count.",
+        "note": "No digest is computed; the MDPH description in tj/rules/hashlib.py is a trusted transcription of tools/hashref/README.md and the source comments. Little-endian host branch only.",
+        "technique": "symbolic path summaries per finite class (buffer position, length residue) in a GF(2) term domain vs a reference model",
+    },
+    "C11": {
+        "text": "tinyjambu_hash_update is shown to implement 'append to a byte stream; compress every full 16 bytes' exactly: for each of the 16 buffer positions and every length class the buffered "
+                "bytes, the bytes taken for the top-up, the whole-block loop (generic iteration, lock-step cursor/remaining) and the stashed tail are the consecutive bytes of (buffered || input), and the "
+                "position is updated accordingly; so the abstract state after a call depends on the concatenated stream only, which gives split-independence by induction over the calls. init/reinit "
+                "write every field that is read before written (whatever the object held); one-shot = init; update; finalize; free.",
+        "note": "Digest equality as a value is not computed. Isolation between state objects rests on C19 (no globals).",
+        "technique": "symbolic path summaries per finite class vs an abstract stream machine; induction over the call sequence stated in DESIGN.md",
+    },
+    "C12": {
+        "text": "RFC 2104 structure for every key-length class (each length 0..64 and the class > 64): in init, reinit and finalize the 64-byte block absorbed equals (key ^ pad) || pad-padding byte for "
+                "byte (ipad 0x36, opad 0x5C), long keys are hashed to 32 bytes first, the block is wiped; finalize = inner digest, outer key block, update(inner digest, 32), finalize(out); update is a "
+                "wrapper; one-shot = init/update/finalize/wipe. Hash primitives are uninterpreted events whose outputs are fresh symbols.",
+        "note": "MAC values are not computed; the hash is C10/C11; the caller passing the same key to finalize is an API contract.",
+        "technique": "finite-class (key length) symbolic path summaries with uninterpreted hash events",
+    },
 }
 
 _NB = "not built yet in this session (design exists in DESIGN.md; claimed only once its check fires on broken variants and is silent on the unchanged tree)"
-NOT_APPLICABLE = {p: _NB for p in ["C10", "C11", "C12", "C13", "C14", "C15", ]}
+NOT_APPLICABLE = {p: _NB for p in ["C13", "C14", "C15", ]}
